@@ -426,3 +426,6 @@ _reg(Profile(name="steps_mix", n_steps=(0, 5), n_ranks=(1, 3), tmax_choices=(12,
              p_sync=0.4, p_launch=0.5))
 _reg(Profile(name="steps_tiny", n_steps=(2, 4), n_ranks=(1, 2), tmax_choices=(8, 10, 14), p_launch=0.5, p_same_ts_as_launch=0.3))
 _reg(Profile(name="diff", n_steps=(1, 4), n_ranks=(1, 3), tmax_choices=(24, 40, 110, 600), p_launch=0.45, p_zero_dur=0.05, p_nonevents=0.2))
+_reg(Profile(name="idle", tmax_choices=(8, 12, 20, 40, 110, 600), n_ranks=(1, 2), p_launch=0.6, p_same_ts_as_launch=0.25, p_missing_kernel=0.1,
+             p_orphan_kernel=0.35, p_kernel_zero=0.12, n_streams=(1, 2), p_zero_dur=0.05))
+_reg(Profile(name="idle_steps", tmax_choices=(20, 40, 110), n_ranks=(1, 2), n_steps=(0, 3), p_launch=0.6, p_orphan_kernel=0.3, n_streams=(1, 2)))
